@@ -46,6 +46,13 @@ def prop_lines(rng, c, ci):
                         # keys that contain characters of the descriptor syntax (escaped here; they are ordinary keys of the tree)
                         b'port\\.one=v1', b'rev\\[2\\]=v2', b'a\\=b=v3', b'\\50ohm=v4', b'h\\#1=v5', b'p\\{q\\}=v6', b'bs\\\\=v7', b'nest.port\\.1=v8'])
         out.append('cal property %d %d set %s' % (c, ci, h(d)))
+    if rng.random() < 0.6:
+        # lists that end in null elements (a slot set with `#`, an element emptied by a trailing-dot delete), or hold nothing else
+        for d in rng.sample([b'tail[0]=a', b'tail[2]#', b'allnull[1]#', b'list[4]#', b'ports[0]=in', b'ports[3]#', b'deep.l[1]#'], rng.randint(1, 4)):
+            out.append('cal property %d %d set %s' % (c, ci, h(d)))
+        if rng.random() < 0.4:
+            out += ['cal property %d %d set %s' % (c, ci, h(b'cut[0]=a')), 'cal property %d %d set %s' % (c, ci, h(b'cut[1]=b')),
+                    'cal property %d %d delete %s' % (c, ci, h(b'cut[1].'))]
     return out
 
 
